@@ -237,6 +237,7 @@ func compress(s string) string {
 // ---- extraction ----
 
 type sigExtractor struct {
+	depth  int
 	p      *Program
 	info   *types.Info
 	buf    types.Object // reader: the []byte parameter; writer: the dst parameter
@@ -256,15 +257,9 @@ func (x *sigExtractor) helperWidth(callee *types.Func, depth int) (int, bool) {
 	if fd == nil || fd.Body == nil || depth > 2 {
 		return 0, false
 	}
-	// a switch on the width parameter (appendNum) is the item-width writer
-	for _, st := range fd.Body.List {
-		if sw, ok := st.(*ast.SwitchStmt); ok && sw.Tag != nil {
-			if id, ok := sw.Tag.(*ast.Ident); ok {
-				if _, isParam := pkg.TypesInfo.ObjectOf(id).(*types.Var); isParam {
-					return -1, true
-				}
-			}
-		}
+	// a writer that takes a one-byte width code besides the value (appendNum) is the item-width writer
+	if isWidthCodec(callee) {
+		return -1, true
 	}
 	// return append(dst, buf[:]...) with buf a fixed array; or append(dst, a, b, c)
 	w := 0
@@ -312,6 +307,10 @@ func (x *sigExtractor) exprSig(e ast.Node) []*sigNode {
 				if fn, ok := callee.(*types.Func); ok && len(v.Args) >= 1 && x.isBuf(v.Args[0]) {
 					if x.self[fn] {
 						return false // a child record
+					}
+					if sub := x.inlineWriter(fn); sub != nil {
+						out = append(out, sub)
+						return false
 					}
 					if w, ok := x.helperWidth(fn, 0); ok {
 						if w == -1 {
@@ -541,4 +540,68 @@ func constTripCount(info *types.Info, f *ast.ForStmt) (int, bool) {
 		return 0, false
 	}
 	return int(k), true
+}
+
+// isWidthCodec: a function over a byte buffer that also takes a one-byte width code (appendNum, readNum).
+func isWidthCodec(fn *types.Func) bool {
+	sig, ok := fn.Type().(*types.Signature)
+	if !ok || sig.Recv() != nil || sig.Params().Len() < 2 {
+		return false
+	}
+	if !isByteSlice(sig.Params().At(0).Type()) {
+		return false
+	}
+	last := sig.Params().At(sig.Params().Len() - 1).Type()
+	bt, ok := last.Underlying().(*types.Basic)
+	return ok && (bt.Kind() == types.Uint8 || bt.Kind() == types.Byte)
+}
+
+// inlineWriter: a same-package helper that is handed the buffer and writes several fields
+// (loops, branches): its own signature is spliced in.  Leaf helpers (fixed width, width codec) are not inlined.
+func (x *sigExtractor) inlineWriter(fn *types.Func) *sigNode {
+	if isWidthCodec(fn) || x.depth > 2 {
+		return nil
+	}
+	fd, pkg := x.p.Decl(fn), x.p.DeclPkg(fn)
+	if fd == nil || fd.Body == nil {
+		return nil
+	}
+	structured := false
+	for _, st := range fd.Body.List {
+		switch st.(type) {
+		case *ast.ForStmt, *ast.RangeStmt, *ast.IfStmt:
+			structured = true
+		}
+	}
+	if !structured {
+		return nil
+	}
+	sub := &sigExtractor{p: x.p, info: pkg.TypesInfo, writer: true, self: x.self, depth: x.depth + 1}
+	for _, fl := range fd.Type.Params.List {
+		for _, nm := range fl.Names {
+			if o := pkg.TypesInfo.Defs[nm]; isByteSlice(o.Type()) && sub.buf == nil {
+				sub.buf = o
+			}
+		}
+	}
+	if sub.buf == nil {
+		return nil
+	}
+	sig := sub.block(fd.Body.List)
+	if sub.err != "" {
+		x.err = sub.err
+	}
+	// the helper's return ends the helper, not the record: turn its stops into fall-through
+	return stopsToEps(sig)
+}
+
+func stopsToEps(s *sigNode) *sigNode {
+	if s.kind == "stop" {
+		return &sigNode{kind: "eps"}
+	}
+	out := &sigNode{kind: s.kind, n: s.n}
+	for _, k := range s.kids {
+		out.kids = append(out.kids, stopsToEps(k))
+	}
+	return out
 }
